@@ -296,10 +296,27 @@ type invocation struct {
 type recorder struct {
 	progs []readProg
 	inv   []*invocation
+	// the readers of earlier invocations, kept by the handler; reading from
+	// them later must never deliver anything (the element they belonged to is
+	// over): what they did deliver
+	kept  []xml.TokenReader
+	leaks []string
 }
 
 func (r *recorder) HandleXMPP(t xmlstream.TokenReadEncoder, start *xml.StartElement) error {
 	i := len(r.inv)
+	for k := len(r.kept) - 1; k >= 0 && k >= len(r.kept)-2; k-- {
+		for n := 0; n < 3; n++ {
+			tok, err := r.kept[k].Token()
+			if tok != nil {
+				r.leaks = append(r.leaks, fmt.Sprintf("while invocation %d runs, the reader kept from invocation %d delivered %s", i, k, xt.CanonTokens([]xml.Token{xml.CopyToken(tok)})))
+			}
+			if err != nil {
+				break
+			}
+		}
+	}
+	r.kept = append(r.kept, t)
 	iv := &invocation{start: start.Copy()}
 	r.inv = append(r.inv, iv)
 	prog := readProg{mode: "all"}
@@ -494,6 +511,9 @@ loop:
 		}
 		want = want[:len(rec.inv)]
 		end = "cut-short"
+	}
+	if len(rec.leaks) > 0 {
+		fail("a handler that kept the reader it was given could read past the end of its element: %s", strings.Join(rec.leaks, "; "))
 	}
 	if len(rec.inv) != len(want) {
 		fail("handler invoked %d times, expected %d (one per top-level element before the first stream-level construct); serve error: %v", len(rec.inv), len(want), serveErr)
